@@ -235,7 +235,13 @@ type aggregate struct {
 func (a *aggregate) hangCount() int {
 	a.mu.Lock()
 	defer a.mu.Unlock()
-	return a.perClass["hang"]
+	n := 0
+	for c, k := range a.perClass {
+		if strings.HasPrefix(c, "hang") {
+			n += k
+		}
+	}
+	return n
 }
 
 func (a *aggregate) add(r *core.CaseResult) {
